@@ -608,6 +608,24 @@ func checkC15(line string, dist map[string]int) (detail, sig, class string) {
 			pf("does not lex to an end")
 			continue
 		}
+		// the statement of C15_comments_stay_in_place on the implementation's own trees:
+		// re-parse the output; the trivia lists at all statement boundaries must be the
+		// source's, up to norm_boundaries (configurations that write semicolons)
+		if !strings.Contains(cfg.name, "semi=false") {
+			if progR, errsR := parseDefault(outA); len(errsR) == 0 {
+				a, b := normBoundaries(boundaryTrivia(progA)), normBoundaries(boundaryTrivia(progR))
+				if len(a) != len(b) {
+					pf("the re-parsed output has %d statement boundaries, the source %d", len(b), len(a))
+				} else {
+					for i := range a {
+						if a[i] != b[i] {
+							pf("trivia at statement boundary %d of %d: source %q, re-parsed output %q", i+1, len(a), strings.Split(a[i], "\x1f"), strings.Split(b[i], "\x1f"))
+							break
+						}
+					}
+				}
+			}
+		}
 		outCode := c15NoSemi(outToks)
 		same := len(outCode) == len(srcCode)
 		for i := 0; same && i < len(outCode); i++ {
